@@ -436,6 +436,9 @@ def run(ctx):
                        "distinct by (config, schedule)" % maxsteps)
     ctx.log("ran %d schedules on the real ThreadWorker; %d with oracle failures" % (len(runs), nfail))
     report_oracle(ctx, runs)
+    for f in real_socket_keepalive_probe():
+        ctx.violation("real sockets: " + f, {"kind": "real-socket-keepalive"})
+    ctx.count_case(("real-socket-keepalive",), True)
     if not quick:
         real_process_probe(ctx)
     bad = ctx.correspond("sched", HEADER, cases, shard=100)
@@ -525,6 +528,10 @@ def search(ctx):
 
 
 def replay(rep):
+    if rep.get("kind") == "real-socket-keepalive":
+        fs = real_socket_keepalive_probe()
+        print("failures:", fs)
+        return 1 if fs else 0
     steps = [tuple(tuple(x) if isinstance(x, list) and x and isinstance(x[0], list) else x for x in s) for s in rep["steps"]]
     steps = [normalize(s) for s in rep["steps"]]
     r = run_schedule(tuple(rep["cfg"]), steps)
@@ -548,6 +555,94 @@ def normalize(s):
 # ---------------------------------------------------------------------------------------------------------
 # thorough tier, supporting exploration: the two known findings on a real gunicorn process with real sockets
 # ---------------------------------------------------------------------------------------------------------
+
+
+def real_socket_keepalive_probe():
+    """The REAL ThreadWorker.run() with real sockets (blocking modes, partial arrivals - what the scripted sockets of the
+    schedules do not have): on one connection, request 1 in one piece, then request 2 in two pieces with a pause inside the
+    head, then request 3 as head + body with a pause before the body.  A handler thread is free all the time, so every
+    request must be served and the connection must stay open until the client leaves.  -> list of failures"""
+    import logging
+    import os
+    import selectors
+    import socket
+    import threading
+    import time
+    import gunicorn.config
+    import gunicorn.glogging
+    from gunicorn.workers.gthread import ThreadWorker
+    cfg = gunicorn.config.Config()
+    cfg.set("threads", 2)
+    cfg.set("keepalive", 5)
+    cfg.set("graceful_timeout", 2)
+    log = gunicorn.glogging.Logger(cfg)
+    log.error_log.handlers = [logging.NullHandler()]
+    log.error_log.propagate = False
+
+    def app(environ, start_response):
+        n = int(environ.get("CONTENT_LENGTH") or 0)
+        body = ("%s %s %d" % (environ["REQUEST_METHOD"], environ["PATH_INFO"], len(environ["wsgi.input"].read(n)))).encode()
+        start_response("200 OK", [("Content-Length", str(len(body)))])
+        return [body]
+    ls = socket.socket()
+    ls.setsockopt(socket.SOL_SOCKET, socket.SO_REUSEADDR, 1)
+    ls.bind(("127.0.0.1", 0))
+    ls.listen(8)
+    w = ThreadWorker(1, os.getppid(), [ls], app, 30, cfg, log)
+    w.wsgi = app
+    w.tpool = w.get_thread_pool()
+    w.poller = selectors.DefaultSelector()
+    w._lock = threading.RLock()
+    t = threading.Thread(target=w.run, daemon=True)
+    t.start()
+    fails = []
+
+    def answer(c, what, want):
+        c.settimeout(4)
+        data = b""
+        try:
+            while not data.endswith(want):
+                blk = c.recv(65536)
+                if not blk:
+                    break
+                data += blk
+        except OSError as e:
+            data += b"<" + type(e).__name__.encode() + b">"
+        if not (data.startswith(b"HTTP/1.1 200") and data.endswith(want)):
+            fails.append("%s was not served although a handler thread was free: the client received %r" % (what, data[:80]))
+            return False
+        return True
+    try:
+        c = socket.create_connection(ls.getsockname())
+        c.sendall(b"GET /one HTTP/1.1\r\nHost: x\r\n\r\n")
+        if answer(c, "request 1 (one piece)", b"GET /one 0"):
+            time.sleep(0.3)
+            c.sendall(b"GET /two HTTP/1.1\r\nHo")
+            time.sleep(0.5)
+            c.sendall(b"st: x\r\n\r\n")
+            if answer(c, "request 2 of a kept-alive connection (head in two pieces)", b"GET /two 0"):
+                time.sleep(0.3)
+                c.sendall(b"POST /three HTTP/1.1\r\nHost: x\r\nContent-Length: 10\r\n\r\n")
+                time.sleep(0.5)
+                c.sendall(b"0123456789")
+                answer(c, "request 3 of a kept-alive connection (body after its head)", b"POST /three 10")
+        c.close()
+        # the first request of a fresh connection in two pieces
+        c = socket.create_connection(ls.getsockname())
+        c.sendall(b"GET /four HT")
+        time.sleep(0.4)
+        c.sendall(b"TP/1.1\r\nHost: x\r\n\r\n")
+        answer(c, "request 1 of a connection (head in two pieces)", b"GET /four 0")
+        c.close()
+    finally:
+        w.alive = False
+        t.join(6)
+        ls.close()
+        try:
+            w.tmp.close()
+        except Exception:
+            pass
+    return fails
 
 def real_process_probe(ctx):
     import os
